@@ -322,7 +322,16 @@ def run_render_bounded(ctx):
     html = importlib.import_module("uberjob.progress._html_progress_observer")
     n, bad, n_ipy = 0, [], [0]
     per_kind = {}
-    scope_sets = [[("a",)], [("a",), ("b", 1)], [(OpaqueVal(1),), (OpaqueVal(2),)], [(1,), ("x",), (None,)], [("eu", 1), ("eu", None)], [("fn.mod.name", 1j), ("fn.mod.name", 2j)]]
+    class SameStr(OpaqueVal):
+        """different keys that PRINT alike (like 2020 and "2020"): a display must not key anything by the printed form"""
+        def __str__(self):
+            return "same"
+
+        __repr__ = __str__
+
+    scope_sets = [[("a",)], [("a",), ("b", 1)], [(OpaqueVal(1),), (OpaqueVal(2),)], [(1,), ("x",), (None,)], [("eu", 1), ("eu", None)], [("fn.mod.name", 1j), ("fn.mod.name", 2j)],
+                  [(2020,), ("2020",)], [(SameStr(1),), (SameStr(2),)], [(1,), (1.5,), ("1",)]]
+    wrong_rows = []
     try:
         ipy = importlib.import_module("uberjob.progress._ipython_progress_observer")
         import contextlib
@@ -360,17 +369,44 @@ def run_render_bounded(ctx):
                         try:
                             if type(o).__name__ == "IPythonProgressObserver":
                                 n_ipy[0] += 1
-                                with contextlib.redirect_stdout(io.StringIO()):
-                                    o._render(state, 0, ets, 12.0)
-                                    o._render(state, len(ets), ets, 13.0)  # second rendering re-uses the widget cache
+                                import IPython.display as _ipd
+
+                                shown, _orig_display = [], _ipd.display
+                                _ipd.display = lambda *a, **k: shown.extend(a)
+                                try:
+                                    with contextlib.redirect_stdout(io.StringIO()):
+                                        o._render(state, 0, ets, 12.0)
+                                        o._render(state, len(ets), ets, 13.0)  # second rendering re-uses the widget cache
+                                finally:
+                                    _ipd.display = _orig_display
+                                # every scope has a row of its own showing ITS counts: the bars (value, max) are exactly the scopes' (done, total)
+                                bars, todo = [], list(shown)
+                                while todo:
+                                    w = todo.pop()
+                                    todo.extend(getattr(w, "children", ()) or ())
+                                    if type(w).__name__ == "IntProgress":
+                                        bars.append((w.value, w.max))
+                                want_bars = sorted((st.completed + st.failed, st.total) for sec in state.values() for st in sec.values())
+                                if shown and sorted(bars) != want_bars and len(wrong_rows) < 3:
+                                    wrong_rows.append(("IPython", [str(x) for x in scs], sorted(bars), want_bars))
                                 continue
                             out = o._render(state, 0, ets, 12.0)
                             if out is None:
                                 bad.append(("None", type(o).__name__))
+                            elif type(o).__name__ == "ConsoleProgressObserver":
+                                # (the HTML page formats its counts differently: not judged here)
+                                # every scope's own progress text appears at least as often as there are scopes with that text
+                                text = out.decode("utf-8", "replace") if isinstance(out, bytes) else out
+                                import collections as _c
+
+                                need = _c.Counter(st.to_progress_string() for sec in state.values() for st in sec.values())
+                                if any(text.count(p) < k for p, k in need.items()) and len(wrong_rows) < 3:
+                                    wrong_rows.append((type(o).__name__, [str(x) for x in scs], dict(need)))
                         except Exception as e:  # noqa: BLE001
                             if len(bad) < 3:
                                 bad.append((type(o).__name__, repr(e), [s for s in scs]))
     ctx.check("bounded/every-enumerated-state-renders-without-raising", bool(not bad), info=f"{n} renders; {bad}")
+    ctx.check("bounded/every-scope-is-shown-with-its-own-counts(also-scopes-that-print-alike)", bool(not wrong_rows), info=str(wrong_rows))
     ctx.check("bounded/nontrivial-number-of-states", bool(n > 200), info=str(n))
     ctx.check("bounded/console-AND-html-renderers-were-both-exercised", bool(per_kind.get("ConsoleProgressObserver", 0) > 50 and per_kind.get("HtmlProgressObserver", 0) > 50), info=str(per_kind))
     ctx.check("bounded/the-IPython-display-was-rendered-too(ipywidgets-importable)", bool(n_ipy[0] > 50), info=str(n_ipy[0]))
@@ -765,4 +801,111 @@ def _replay(ob):
     return {"reproduced": p.returncode == 1, "detail": (p.stdout + p.stderr)[-2000:], "script": F5_SCRIPT}
 
 
-REPLAYS = [("progress.final-render*", _replay_final), ("progress.State/elapsed*", _replay_elapsed), ("progress.*", _replay)]
+# ---- bounded stand-in: the bundled displays driven by REAL runs, with scope values that are merely hashable and equatable ----------------
+E2E_SCRIPT = """
+import sys, io, contextlib, threading, time
+import uberjob
+from uberjob.progress._console_progress_observer import ConsoleProgressObserver
+from uberjob.progress._html_progress_observer import HtmlProgressObserver
+problems = []
+thread_errors = []
+threading.excepthook = lambda a: thread_errors.append(repr(a.exc_value))
+
+class V:                      # hashable and equatable, nothing else (no ordering); prints like its twin of another kind
+    def __init__(self, i): self.i = i
+    def __eq__(self, o): return type(o) is type(self) and o.i == self.i
+    def __hash__(self): return hash(self.i)
+    def __str__(self): return "v%d" % self.i
+    __repr__ = __str__
+class Locked(V):              # ... and not copyable / picklable (owns a lock, a connection, a file handle)
+    def __init__(self, i): V.__init__(self, i); self.lock = threading.Lock()
+class Falsy(V):               # ... and falsy
+    def __bool__(self): return False
+SCOPES = {"plain": lambda i: ("stage", i), "opaque": lambda i: (V(i),), "uncopyable": lambda i: (Locked(i),), "falsy": lambda i: (Falsy(i), 0, ""),
+          "print-alike": lambda i: ((2020,), ("2020",), (2020.0,))[i % 3]}
+
+def build(kind, n_ok, fail):
+    plan = uberjob.Plan(); outs = []
+    for i in range(n_ok):
+        with plan.scope(*SCOPES[kind](i)): outs.append(plan.call(lambda i=i: i))
+    if fail:
+        def boom(): raise ValueError("boom")
+        with plan.scope(*SCOPES[kind](0)): outs.append(plan.call(boom))
+    return plan, outs
+
+def run_case(name, mk_observer, final_of, kind, n_ok, fail, slow_output=0.0):
+    plan, outs = build(kind, n_ok, fail)
+    obs, emitted = mk_observer(slow_output)
+    buf = io.StringIO()
+    try:
+        with contextlib.redirect_stdout(buf):
+            uberjob.run(plan, output=outs, progress=uberjob.progress.Progress(lambda: obs), max_errors=None)
+    except uberjob.CallError:
+        pass
+    last = final_of(buf, emitted)
+    if last is None:
+        problems.append("%s: the display never rendered anything" % name); return
+    total = n_ok + (1 if fail else 0)
+    done_text = "%d / %d" % (total, total) if not fail else None
+    # the last rendering reflects the final counts: every successful scope reads k / k; with a failure the failed count is shown
+    if kind != "print-alike":
+        want = "1 / 1" if not (fail and n_ok) else None
+        if not fail and want not in last: problems.append("%s: last rendering does not show the final counts (%s): %r" % (name, want, last[-300:]))
+    if fail and "failed" not in last.lower() and "boom" not in last.lower(): problems.append("%s: last rendering does not show the failure: %r" % (name, last[-300:]))
+
+def console(slow):
+    return ConsoleProgressObserver(initial_update_delay=0, min_update_interval=0.01, max_update_interval=0.05), None
+def console_final(buf, emitted):
+    t = buf.getvalue(); return t if t.strip() else None
+def html(slow):
+    emitted = []
+    def out(data):
+        if slow: time.sleep(slow)
+        emitted.append(data if isinstance(data, str) else data.decode("utf-8", "replace"))
+    return HtmlProgressObserver(out, initial_update_delay=0, min_update_interval=0.01, max_update_interval=0.05), emitted
+def html_final(buf, emitted):
+    return emitted[-1] if emitted else None
+
+for kind in SCOPES:
+    for n_ok, fail in ((1, False), (3, False), (2, True), (0, True)):
+        run_case("console[%s,%d ok,%s]" % (kind, n_ok, "1 failing" if fail else "none failing"), console, console_final, kind, n_ok, fail)
+        run_case("html[%s,%d ok,%s]" % (kind, n_ok, "1 failing" if fail else "none failing"), html, html_final, kind, n_ok, fail)
+# an output function slower than every interval: the final page is still emitted before run returns
+run_case("html[slow output]", html, html_final, "plain", 2, False, slow_output=0.3)
+# a run without any progress event (a plan without calls): one rendering is still emitted
+plan = uberjob.Plan(); obs, emitted = html(0)
+uberjob.run(plan, output=[plan.lit(1)], progress=uberjob.progress.Progress(lambda: obs))
+if not emitted: problems.append("html[no events]: a run without progress events never rendered (a page of an earlier run would stay on display)")
+if thread_errors: problems.append("an update thread died: %s" % thread_errors[:2])
+for p in problems[:6]: print("C20 violated:", p)
+print(len(problems), "problem(s)"); sys.exit(1 if problems else 0)
+"""
+
+
+def _replay_e2e(ob=None):
+    import os
+
+    from ujvc.z3env import REPO_SRC
+
+    p = __import__('ujvc.units', fromlist=['run_native_p']).run_native_p(["/venv/bin/python", "-c", E2E_SCRIPT], env=dict(os.environ, PYTHONPATH=REPO_SRC), timeout=240)
+    return {"reproduced": p.returncode == 1, "detail": (p.stdout + p.stderr)[-2500:], "script": E2E_SCRIPT, "rc": p.returncode}
+
+
+@unit("progress.displays-end-to-end[bounded]", props=["C20"],
+      functions=[(SP, "SimpleProgressObserver._run_update_thread"), (SP, "SimpleProgressObserver._do_render"), (SP, "SimpleProgressObserver.__init__"),
+                 (SP, "SimpleProgressObserver.__enter__"), (SP, "SimpleProgressObserver.__exit__"), (SP, "SimpleProgressObserver.increment_total"),
+                 (SP, "SimpleProgressObserver.increment_running"), (SP, "SimpleProgressObserver.increment_completed"), (SP, "SimpleProgressObserver.increment_failed"),
+                 ("progress/_console_progress_observer.py", "ConsoleProgressObserver._render"), ("progress/_html_progress_observer.py", "HtmlProgressObserver._render")],
+      assumptions=["bounded stand-in: real runs of 1-4 calls under the console and HTML displays, five kinds of scope values (plain, merely hashable and equatable, "
+                   "not copyable, falsy, printing alike), with and without a failing call, a slow output function, a run without progress events"],
+      min_obligations=2, kind="bounded")
+def displays_e2e(ctx):
+    r = _replay_e2e()
+    if r["rc"] not in (0, 1):
+        ctx.unsupported("display probe did not run: " + r["detail"][-600:])
+    ctx.check("bounded/the-displays-render-every-run-to-its-final-counts-whatever-the-scope-values(no-update-thread-dies)", bool(r["rc"] == 0), info=r["detail"][-2000:])
+    ctx.check("bounded/display-probe-ran", bool("problem(s)" in r["detail"]))
+    return "ok"
+
+
+REPLAYS = [("progress.displays-end-to-end*", _replay_e2e), ("progress.final-render*", _replay_final), ("progress.State/elapsed*", _replay_elapsed), ("progress.*", _replay)]
